@@ -1,3 +1,309 @@
+(* C19 - exterior-calculus operators obey their algebraic laws and degree arithmetic.
+   Property theorems only: each is closed by [exact] of a lemma of Proofs/ExteriorP.v and
+   followed by Print Assumptions.
+
+   Vocabulary (Model/ExteriorM.v):
+     expr                     sympy values built by sympde.exterior (modulo argument order)
+     mk_d mk_delta mk_hodge mk_wedge   the four `eval` classmethods, arm for arm
+     sadd / scale             sympy's Add( ... ) / Mul(constant, ...)
+     infer                    infere_type
+     tree / eval              user-level programs (forms, c*t, sums, d, delta, hodge, wedge) and their value
+     gops / laws              a graded module with d, delta, star, wedge and the defining hypotheses
+     denote / tden            meaning of a value / of a program in such a module
+     prog G fenv t            t has no bare constant operand and its atoms are forms of dimension dim G
+                              whose degree is within 0..dim G and matches the environment *)
+From Coq Require Import String List Bool Arith ZArith QArith.
 From V Require Import Model.ExteriorM Proofs.ExteriorP.
-Theorem C19_stub : True. Proof. exact stub_true. Qed.
-Print Assumptions C19_stub.
+Import ListNotations.
+Open Scope string_scope.
+
+(* ------------------------------------------------------------------ every arm preserves the meaning *)
+Theorem C19_mul_sound : forall G, laws G -> forall cenv fenv c e,
+  denote G cenv fenv (scale c e) = smul G (cval G cenv c) (denote G cenv fenv e).
+Proof. exact den_scale. Qed.
+Print Assumptions C19_mul_sound.
+
+Theorem C19_add_sound : forall G, laws G -> forall cenv fenv args,
+  denote G cenv fenv (sadd args) = msum G (map (denote G cenv fenv) args).
+Proof. exact sadd_sound. Qed.
+Print Assumptions C19_add_sound.
+
+(* d: all arms, for all expressions; the guard excludes only a bare product of constants as a summand *)
+Theorem C19_d_arms_sound_partial : forall G, laws G -> forall cenv fenv e,
+  wfe G fenv e -> gd_ok e = true ->
+  denote G cenv fenv (mk_d e) = opd G (denote G cenv fenv e).
+Proof. exact mk_d_sound. Qed.
+Print Assumptions C19_d_arms_sound_partial.
+
+Theorem C19_d_arms_sound_refuted :
+  exists e, wfe G2.G fenv0 e /\ mk_d e = e /\
+    denote G2.G cenv1 fenv0 (mk_d e) <> opd G2.G (denote G2.G cenv1 fenv0 e).
+Proof. exact mk_d_const_refuted. Qed.
+Print Assumptions C19_d_arms_sound_refuted.
+
+Theorem C19_delta_arms_sound_partial : forall G, laws G -> forall cenv fenv e,
+  wfe G fenv e -> gd_ok e = true ->
+  denote G cenv fenv (mk_delta e) = opdelta G (denote G cenv fenv e).
+Proof. exact mk_delta_sound. Qed.
+Print Assumptions C19_delta_arms_sound_partial.
+
+Theorem C19_delta_arms_sound_refuted :
+  exists e, wfe G2.G fenv0 e /\ mk_delta e = e /\
+    denote G2.G cenv1 fenv0 (mk_delta e) <> opdelta G2.G (denote G2.G cenv1 fenv0 e).
+Proof. exact mk_delta_const_refuted. Qed.
+Print Assumptions C19_delta_arms_sound_refuted.
+
+(* hodge: the guard also excludes non-zero bare numbers / Constants (hodge(c) = 0 in the code) *)
+Theorem C19_hodge_arms_sound_partial : forall G, laws G -> forall cenv fenv e,
+  wfe G fenv e -> gh_ok e = true ->
+  denote G cenv fenv (mk_hodge e) = ophodge G (denote G cenv fenv e).
+Proof. exact mk_hodge_sound. Qed.
+Print Assumptions C19_hodge_arms_sound_partial.
+
+Theorem C19_hodge_arms_sound_refuted :
+  exists e, wfe G2.G fenv0 e /\
+    denote G2.G cenv1 fenv0 (mk_hodge e) <> ophodge G2.G (denote G2.G cenv1 fenv0 e).
+Proof. exact mk_hodge_const_refuted. Qed.
+Print Assumptions C19_hodge_arms_sound_refuted.
+
+(* wedge: unconditional *)
+Theorem C19_wedge_arms_sound : forall G, laws G -> forall cenv fenv l r,
+  denote G cenv fenv (mk_wedge l r) = opwedge G (denote G cenv fenv l) (denote G cenv fenv r).
+Proof. exact mk_wedge_sound. Qed.
+Print Assumptions C19_wedge_arms_sound.
+
+(* ------------------------------------------------------------------ all programs of the property's grammar *)
+Theorem C19_program_sound : forall G, laws G -> forall cenv fenv t,
+  wft G fenv t -> const_free t = true ->
+  wfe G fenv (eval t) /\ okv (eval t) = true /\ denote G cenv fenv (eval t) = tden G cenv fenv t.
+Proof. exact eval_sound. Qed.
+Print Assumptions C19_program_sound.
+
+(* d d = 0, delta delta = 0 *)
+Theorem C19_dd : forall G, laws G -> forall cenv fenv t,
+  prog G fenv t -> denote G cenv fenv (eval (TD (TD t))) = m0 G.
+Proof. exact law_dd. Qed.
+Print Assumptions C19_dd.
+
+Theorem C19_deltadelta : forall G, laws G -> forall cenv fenv t,
+  prog G fenv t -> denote G cenv fenv (eval (TDelta (TDelta t))) = m0 G.
+Proof. exact law_deltadelta. Qed.
+Print Assumptions C19_deltadelta.
+
+(* ... and whether the value is syntactically 0: yes on atoms and on sums of bare d(.) terms,
+   no below an extracted coefficient *)
+Theorem C19_dd_syntactic_atom : forall s k n, mk_d (mk_d (Form s k n)) = zero.
+Proof. exact dd_atom. Qed.
+Print Assumptions C19_dd_syntactic_atom.
+
+Theorem C19_deltadelta_syntactic_atom : forall s k n, mk_delta (mk_delta (Form s k n)) = zero.
+Proof. exact deltadelta_atom. Qed.
+Print Assumptions C19_deltadelta_syntactic_atom.
+
+Theorem C19_dd_syntactic_partial : forall ts, mk_d (Add (map D ts)) = zero.
+Proof. exact dd_sum_of_d. Qed.
+Print Assumptions C19_dd_syntactic_partial.
+
+Theorem C19_deltadelta_syntactic_partial : forall ts, mk_delta (Add (map Delta ts)) = zero.
+Proof. exact deltadelta_sum_of_delta. Qed.
+Print Assumptions C19_deltadelta_syntactic_partial.
+
+Theorem C19_dd_syntactic_refuted :
+  exists t, const_free t = true /\ eval (TD (TD t)) <> zero /\
+            eval (TD (TD t)) = Mul 2 [] (D (D (Form "u" 0 3))).
+Proof. exact dd_syntactic_refuted. Qed.
+Print Assumptions C19_dd_syntactic_refuted.
+
+Theorem C19_deltadelta_syntactic_refuted :
+  exists t, const_free t = true /\ eval (TDelta (TDelta t)) <> zero.
+Proof. exact deltadelta_syntactic_refuted. Qed.
+Print Assumptions C19_deltadelta_syntactic_refuted.
+
+(* d vanishes on top degree, delta on degree 0: for programs of every classical degree *)
+Theorem C19_d_top : forall G, laws G -> forall cenv fenv t,
+  prog G fenv t -> tdeg (dim G) t = Some (dim G) -> denote G cenv fenv (eval (TD t)) = m0 G.
+Proof. exact law_d_top_deg. Qed.
+Print Assumptions C19_d_top.
+
+Theorem C19_delta_bot : forall G, laws G -> forall cenv fenv t,
+  prog G fenv t -> tdeg (dim G) t = Some 0 -> denote G cenv fenv (eval (TDelta t)) = m0 G.
+Proof. exact law_delta_bot_deg. Qed.
+Print Assumptions C19_delta_bot.
+
+Theorem C19_d_top_syntactic_atom : forall s n, mk_d (Form s n n) = zero.
+Proof. exact d_top_atom. Qed.
+Print Assumptions C19_d_top_syntactic_atom.
+
+Theorem C19_delta_bot_syntactic_atom : forall s n, mk_delta (Form s 0 n) = zero.
+Proof. exact delta_bot_atom. Qed.
+Print Assumptions C19_delta_bot_syntactic_atom.
+
+Theorem C19_d_top_syntactic_refuted :
+  exists t, const_free t = true /\ infer (eval t) = IOk 3 /\ first_dim (eval t) = Some 3 /\ eval (TD t) <> zero.
+Proof. exact d_top_syntactic_refuted. Qed.
+Print Assumptions C19_d_top_syntactic_refuted.
+
+Theorem C19_delta_bot_syntactic_refuted :
+  exists t, const_free t = true /\ infer (eval t) = IOk 0 /\ eval (TDelta t) <> zero.
+Proof. exact delta_bot_syntactic_refuted. Qed.
+Print Assumptions C19_delta_bot_syntactic_refuted.
+
+(* linearity over constants (numbers and symbolic constants), in each argument *)
+Theorem C19_lin_d : forall G, laws G -> forall cenv fenv c t1 t2,
+  prog G fenv t1 -> prog G fenv t2 ->
+  denote G cenv fenv (eval (TD (tcomb c t1 t2))) =
+  madd G (smul G (cval G cenv (coef_c c)) (denote G cenv fenv (eval (TD t1)))) (denote G cenv fenv (eval (TD t2))).
+Proof. exact law_lin_d. Qed.
+Print Assumptions C19_lin_d.
+
+Theorem C19_lin_delta : forall G, laws G -> forall cenv fenv c t1 t2,
+  prog G fenv t1 -> prog G fenv t2 ->
+  denote G cenv fenv (eval (TDelta (tcomb c t1 t2))) =
+  madd G (smul G (cval G cenv (coef_c c)) (denote G cenv fenv (eval (TDelta t1)))) (denote G cenv fenv (eval (TDelta t2))).
+Proof. exact law_lin_delta. Qed.
+Print Assumptions C19_lin_delta.
+
+Theorem C19_lin_hodge : forall G, laws G -> forall cenv fenv c t1 t2,
+  prog G fenv t1 -> prog G fenv t2 ->
+  denote G cenv fenv (eval (THodge (tcomb c t1 t2))) =
+  madd G (smul G (cval G cenv (coef_c c)) (denote G cenv fenv (eval (THodge t1)))) (denote G cenv fenv (eval (THodge t2))).
+Proof. exact law_lin_hodge. Qed.
+Print Assumptions C19_lin_hodge.
+
+Theorem C19_lin_wedge_left : forall G, laws G -> forall cenv fenv c t1 t2 w,
+  prog G fenv t1 -> prog G fenv t2 -> prog G fenv w ->
+  denote G cenv fenv (eval (TWedge (tcomb c t1 t2) w)) =
+  madd G (smul G (cval G cenv (coef_c c)) (denote G cenv fenv (eval (TWedge t1 w)))) (denote G cenv fenv (eval (TWedge t2 w))).
+Proof. exact law_lin_wedge_l. Qed.
+Print Assumptions C19_lin_wedge_left.
+
+Theorem C19_lin_wedge_right : forall G, laws G -> forall cenv fenv c t1 t2 w,
+  prog G fenv t1 -> prog G fenv t2 -> prog G fenv w ->
+  denote G cenv fenv (eval (TWedge w (tcomb c t1 t2))) =
+  madd G (smul G (cval G cenv (coef_c c)) (denote G cenv fenv (eval (TWedge w t1)))) (denote G cenv fenv (eval (TWedge w t2))).
+Proof. exact law_lin_wedge_r. Qed.
+Print Assumptions C19_lin_wedge_right.
+
+(* the values themselves differ: a*d(u+v) against a*d(u) + a*d(v) *)
+Theorem C19_lin_syntactic_refuted :
+  exists c t1 t2, const_free t1 = true /\ const_free t2 = true /\
+    eqv true (eval (TD (tcomb c t1 t2))) (sadd [scale (coef_c c) (eval (TD t1)); eval (TD t2)]) = false.
+Proof. exact lin_d_syntactic_refuted. Qed.
+Print Assumptions C19_lin_syntactic_refuted.
+
+(* star star = (-1)^(k(n-k)) on k-forms: every dimension n, every degree k <= n *)
+Theorem C19_hodge_hodge : forall G, laws G -> forall cenv fenv t k,
+  prog G fenv t -> tdeg (dim G) t = Some k -> k <= dim G ->
+  denote G cenv fenv (eval (THodge (THodge t))) =
+  smul G (rsgn G (k * (dim G - k))) (denote G cenv fenv (eval t)).
+Proof. exact law_hodge_hodge_deg. Qed.
+Print Assumptions C19_hodge_hodge.
+
+Theorem C19_hodge_hodge_syntactic_atom : forall s k n,
+  mk_hodge (mk_hodge (Form s k n)) =
+  if Nat.even (k * (n - k)) then Form s k n else Mul (-1 # 1) [] (Form s k n).
+Proof. exact hodge_hodge_atom. Qed.
+Print Assumptions C19_hodge_hodge_syntactic_atom.
+
+Theorem C19_hodge_hodge_syntactic_refuted :
+  exists t, const_free t = true /\ infer (eval t) = IOk 2 /\
+            eval (THodge (THodge t)) = Hodge (Hodge (D (Form "u" 1 3))) /\
+            eqv true (eval (THodge (THodge t))) (scale (sign_q (2 * (3 - 2)), []) (eval t)) = false.
+Proof. exact hodge_hodge_syntactic_refuted. Qed.
+Print Assumptions C19_hodge_hodge_syntactic_refuted.
+
+(* ------------------------------------------------------------------ degree inference *)
+Theorem C19_infer_sound : forall G, laws G -> forall cenv fenv e k,
+  infer e = IOk k -> wfe G fenv e -> deg G (denote G cenv fenv e) k.
+Proof. exact infer_sound. Qed.
+Print Assumptions C19_infer_sound.
+
+Theorem C19_tdeg_sound : forall G, laws G -> forall cenv fenv t k,
+  tdeg (dim G) t = Some k -> wft G fenv t -> deg G (tden G cenv fenv t) k.
+Proof. exact tdeg_sound. Qed.
+Print Assumptions C19_tdeg_sound.
+
+Theorem C19_infer_d : forall a k, infer a = IOk k -> k + 1 <= 6 -> infer (D a) = IOk (k + 1).
+Proof. exact infer_D. Qed.
+Print Assumptions C19_infer_d.
+
+Theorem C19_infer_delta : forall a k, infer a = IOk k -> 1 <= k <= 7 -> infer (Delta a) = IOk (k - 1).
+Proof. exact infer_Delta. Qed.
+Print Assumptions C19_infer_delta.
+
+Theorem C19_infer_hodge : forall a k n,
+  infer a = IOk k -> first_dim a = Some n -> k <= n -> n - k <= 6 -> infer (Hodge a) = IOk (n - k).
+Proof. exact infer_Hodge. Qed.
+Print Assumptions C19_infer_hodge.
+
+Theorem C19_infer_wedge : forall a b k l,
+  infer a = IOk k -> infer b = IOk l -> k + l <= 6 -> infer (Wedge a b) = IOk (k + l).
+Proof. exact infer_Wedge. Qed.
+Print Assumptions C19_infer_wedge.
+
+Theorem C19_infer_delta_of_0_refused : forall a, infer a = IOk 0 -> infer (Delta a) = IErrValue.
+Proof. exact infer_Delta_of_0. Qed.
+Print Assumptions C19_infer_delta_of_0_refused.
+
+(* sums of different degrees are refused (ValueError when no summand raises by itself) *)
+Theorem C19_infer_sum_mixed_refused : forall ts t1 t2 k1 k2,
+  In t1 ts -> In t2 ts -> infer t1 = IOk k1 -> infer t2 = IOk k2 -> k1 <> k2 ->
+  is_ierr (infer (Add ts)) = true /\
+  ((forall t, In t ts -> is_ierr (infer t) = false) -> infer (Add ts) = IErrValue).
+Proof. exact infer_sum_mixed_refused. Qed.
+Print Assumptions C19_infer_sum_mixed_refused.
+
+(* sums of one degree are accepted ... when every summand is typed by infere_type *)
+Theorem C19_infer_sum_same_partial : forall ts k,
+  ts <> [] -> Forall (fun t => infer t = IOk k) ts -> infer (Add ts) = IOk k.
+Proof. exact infer_sum_same. Qed.
+Print Assumptions C19_infer_sum_same_partial.
+
+(* ... but a constant multiple is not: infere_type(2*u) is None, and u1 + 2*v1 is refused *)
+Theorem C19_infer_mul_none : forall q m v, infer (Mul q m v) = INone.
+Proof. exact infer_Mul_none. Qed.
+Print Assumptions C19_infer_mul_none.
+
+Theorem C19_infer_sum_same_refuted :
+  let e := Add [Form "u" 1 3; Mul 2 [] (Form "v" 1 3)] in
+  infer e = IErrValue /\
+  forall G (HL : laws G) cenv fenv, wfe G fenv e -> deg G (denote G cenv fenv e) 1.
+Proof. exact infer_sum_same_refuted. Qed.
+Print Assumptions C19_infer_sum_same_refuted.
+
+(* ------------------------------------------------------------------ non-vacuity *)
+(* the hypotheses [laws] have a model with non-trivial d, delta and sign *)
+Theorem C19_laws_nonvacuous : exists G, laws G /\ dim G = 2 /\
+  (exists x, opd G x <> m0 G) /\ (exists x, opdelta G x <> m0 G) /\
+  (exists x, deg G x 1 /\ ophodge G (ophodge G x) = smul G (ropp G (r1 G)) x /\ ophodge G (ophodge G x) <> x).
+Proof. exact laws_nonvacuous. Qed.
+Print Assumptions C19_laws_nonvacuous.
+
+(* a concrete program in that model: u = e1 (a 1-form), f a 0-form with d f = e1 *)
+Definition fenv2 : string -> M G2.G :=
+  fun s => if String.eqb s "u" then G2.mk6 0 0 1 0 0 0
+           else if String.eqb s "f" then G2.mk6 0 1 0 0 0 0 else G2.z6.
+Definition prog2 : tree :=
+  TSum [THodge (THodge (TForm "u" 1 2)); TScale (CNum (3 # 1)) (TD (TForm "f" 0 2))].
+
+Example C19_prog_nonvacuous :
+  prog G2.G fenv2 prog2 /\ tdeg 2 prog2 = Some 1 /\
+  eval prog2 = Add [Mul (-1 # 1) [] (Form "u" 1 2); Mul (3 # 1) [] (D (Form "f" 0 2))] /\
+  denote G2.G cenv1 fenv2 (eval prog2) = G2.mk6 0 0 (Q2Qc (2 # 1)) 0 0 0.
+Proof.
+  split.
+  - split; [|reflexivity]. intros a Ha. cbn in Ha.
+    destruct Ha as [<-|[<-|[]]]; cbn; repeat split; auto.
+  - repeat split; reflexivity.
+Qed.
+
+(* the sweep asked for by the property, by computation: dimensions 1..6, every degree 0..n *)
+Example C19_hodge_sign_sweep :
+  forallb (fun n => forallb (fun k =>
+      eqv true (eval (THodge (THodge (TForm "w" k n))))
+               (if Nat.even (k * (n - k)) then Form "w" k n else Mul (-1 # 1) [] (Form "w" k n))
+      && ires_eqb (infer (eval (THodge (TForm "w" k n)))) (IOk (n - k))
+      && eqv true (eval (TD (TD (TForm "w" k n)))) zero
+      && eqv true (eval (TDelta (TDelta (TForm "w" k n)))) zero)
+    (seq 0 (S n))) (seq 1 6) = true.
+Proof. vm_compute. reflexivity. Qed.
